@@ -349,6 +349,13 @@ impl<'tcx> HirX<'tcx> {
             K::Path(qp) => {
                 kind = "Path";
                 self.res(qp, e.hir_id, &mut o);
+                if !e.span.from_expansion() {
+                    if let Ok(snip) = self.tcx.sess.source_map().span_to_snippet(e.span) {
+                        if snip.len() <= 100 && snip.contains("::") {
+                            o.push(("txt".into(), J::Str(snip)));
+                        }
+                    }
+                }
             }
             K::Binary(op, l, r) => {
                 kind = "Bin";
